@@ -453,9 +453,12 @@ func BlockedYield() {
 			runtime.Gosched()
 			return
 		}
+		if RealTimersHook != nil && RealTimersHook() {
+			time.Sleep(200 * time.Microsecond)
+		}
 		// outside a run nobody else can release the lock
 		s.blockedStreak++
-		if s.blockedStreak > 64 {
+		if s.blockedStreak > 64 && !(RealTimersHook != nil && RealTimersHook()) {
 			s.blockedStreak = 0
 			panic(StepCapExceeded{})
 		}
